@@ -11,7 +11,7 @@ from mc import history
 from oracles import plfun as P
 
 PROPERTY = "C09"
-SCALARS = [-2, -1, 0.5, 3, 0, 1, -0.0, 2.5e-7]
+SCALARS = [-2, -1, 0.5, 3, 0, 1, -0.0, 2.5e-7, np.int64(3), np.float32(0.5), np.float64(-1.5)]   # NumPy scalars are real numbers too
 TOL = 1e-9
 RULE = (
     "A: ALL ordered pairs of the operand set (exact: landscapes of all multisets of <= 2 lattice bars, all "
